@@ -30,7 +30,8 @@ let print_ev (e : ev) =
   | ERet (r, v) -> pr (Printf.sprintf "r %s %s" (zs r) (zs v))
   | ECb (k, d, n) -> pr (Printf.sprintf "cb %s %s %s" (zs k) (zs d) (zs n))
   | EPoll (t, n) -> pr (Printf.sprintf "poll %s %s" (zs t) (zs n))
-  | ENote c -> pr (Printf.sprintf "note model-error %s" (zs c))
+  | ENote c -> if int_of_z c = 2 then () else pr (Printf.sprintf "note model-error %s" (zs c))
+  | EFire _ | EDecide _ -> ()      (* ghost events of the proofs, not observables *)
 
 let flush_events (st : lp) : lp =
   List.iter print_ev (List.rev st.out);
